@@ -674,7 +674,12 @@ def rule_dispatch(rep):
                 argsets.append([nbit(a) for a in x["args"]])
     rep.ob(R, "order", order == ["AvxInterpolator", "SseInterpolator", "NeonInterpolator", "ScalarInterpolator"],
            "kernel constructors are tried in the order %s (documented: AVX > SSE3 > NEON > scalar)" % order, loc(fn), sample={"order": order})
-    same = len({tuple(a) for a in argsets}) == 1 and argsets and argsets[0] == ["sinc_len", "oversampling_factor", "f_cutoff", "window"]
+    # identical argument lists; each argument is the (possibly re-bound: `let sinc_len = round_up(sinc_len)`, renamed `sinc_len__sN` by the
+    # normaliser) value of the corresponding parameter of make_interpolator.  What the re-bound values are is decided by R-C02-length / R-C02-cutoff-upper.
+    import re as _re
+    pn = [p_.get("name") for p_ in fn["params"]]
+    want = [pn[0], pn[3], pn[2], pn[4]] if len(pn) == 5 else None
+    same = len({tuple(a) for a in argsets}) == 1 and bool(argsets) and want is not None and [_re.sub(r"__s\d+$", "", a_) for a_ in argsets[0]] == want
     rep.ob(R, "same-arguments", same, "all kernel constructors must receive identical (sinc_len, oversampling_factor, f_cutoff, window): %s" % argsets, loc(fn))
     # cfg attributes of the attempts
     cfgs = []
